@@ -570,7 +570,7 @@ def forced_on_samples(chk, cx, scheds, sets, rnd):
         b = fb * fsx.fpf if fsx.nfiles > 1 else (fb if fb < L else L // 2)
         pairs = [[(b - mx // 2, mx), (b, mx)], [(b - 1, mx), (b - 1, mx)], [(0, mx), (L - mx, mx)]]
         for i, procs in enumerate(scheds if (chk.tier == "thorough" or fsx.key == "s_dada") else
-                                  rnd.sample(scheds, min(len(scheds), 24))):
+                                  rnd.sample(scheds, min(len(scheds), 16))):
             nread = max(procs)
             args = pairs[i % len(pairs)][:nread] if nread <= 2 else [(b - 2, min(mx, 3)), (b - 1, min(mx, 3)), (b, min(mx, 3))]
             if cx.step_failures.get(fsx.key, 0) >= 2:
@@ -623,7 +623,8 @@ def _run(chk, rl, tmp, pool):
     cx.samples = rl.sample_files()
     cx.maxn = {"s_stokes": 2, "s_vdif": 6, "s_vdif_lsb": 6, "s_guppi": 8, "s_dada": 16, "s_dada_lsb": 16}
     rl.install()
-    allsets = list(cx.written.values()) + list(cx.samples.values())
+    # (the lower-sideband readers of the two odd-length real streams are exercised by C19's reader path)
+    allsets = [f for f in list(cx.written.values()) + list(cx.samples.values()) if f.key not in ("realodd_lsb", "reallong_lsb")]
     events = []
     import time
     tm = {}
@@ -643,7 +644,7 @@ def _run(chk, rl, tmp, pool):
     # (2) sequential histories (+ Dask reads, adjacency, repeats)
     for fsx in allsets:
         small = fsx.key in cx.samples
-        lim = (400 if th else 55) if not small else (150 if th else 20)
+        lim = (400 if th else 40) if not small else (150 if th else 16)
         if fsx.key == "s_stokes":
             lim = 30 if th else 5
         if fsx.assigned:
@@ -663,11 +664,11 @@ def _run(chk, rl, tmp, pool):
         else:
             fb = fsx.spf // (2 if fsx.real else 1)
             ks = sorted(set([-1, 0, 1, 2, fb - 1, fb, fb + 1, fb * fsx.fpf, L // 2, L - 2, L - 1, L, L + 1]
-                            + [rnd.randrange(0, L + 1) for _ in range(2500 if th else 40)]))
+                            + [rnd.randrange(0, L + 1) for _ in range(2500 if th else 24)]))
         if fsx.assigned and not th:
             ks = [k for i, k in enumerate(ks) if i % 3 == 0 or k in (-1, 0, L, L + 1)]
         ev = offset_events(chk, cx, fsx, ks, len(events), pert_every=3 if th else 9,
-                           scale_every=1 if (th or fsx.key.startswith("dadaleap")) else 4)
+                           scale_every=1 if (th or fsx.key.startswith("dadaleap")) else 6)
         cx.counts["offset"] += len(ev)
         events += ev
     lap("offsets")
@@ -686,7 +687,7 @@ def _run(chk, rl, tmp, pool):
     # (5) free-running concurrency on shared reader objects
     pool_sets = [cx.written[k] for k in ("vdifc", "vdifc_lsb", "vdifr", "vdifr_lsb", "dada", "guppi", "guppil", "stokesl",
                                          "stokeslong", "vdift")] + [cx.samples["s_dada"], cx.samples["s_guppi"]]
-    ev = free_running(chk, cx, pool_sets, 32, 200 if th else 45, len(events))
+    ev = free_running(chk, cx, pool_sets, 32, 200 if th else 28, len(events))
     cx.counts["pool"] = len(ev)
     events += ev
     submit(ev, "pool")
@@ -723,9 +724,9 @@ def _run(chk, rl, tmp, pool):
             byF.setdefault(fk, []).append(v)
         for fk, groups in sorted(byF.items()):
             g1, g2 = rnd.sample(groups, 2)       # all interleavings of one argument pair, 16 of another
-            sel += g1 + rnd.sample(g2, 16)
+            sel += g1 + rnd.sample(g2, 3)
         recs2 = sel
-        recs3 = rnd.sample(recs3, min(len(recs3), 120))
+        recs3 = rnd.sample(recs3, min(len(recs3), 60))
     else:
         recs3 = rnd.sample(recs3, min(len(recs3), 4000))
     lap("wait_tlc")
